@@ -664,6 +664,17 @@ func (ex *Exec) sliceOp(fr *Frame, i *ssa.Slice) Value {
 	}
 	switch a := x.(type) {
 	case Str:
+		if a.Enc != nil && (a.Enc.Kind == "acc" || a.Enc.Kind == "val" || a.Enc.Kind == "cons") {
+			// the human-readable part and the separator of a bech32 string are known text
+			pre := bech32HRP[a.Enc.Kind] + "1"
+			lo, hi := get(i.Low, 0), get(i.High, encLen(a.Enc))
+			if lo >= 0 && lo <= hi && hi <= len(pre) {
+				return ex.strConst(pre[lo:hi])
+			}
+			if lo == 0 && hi == encLen(a.Enc) {
+				return a
+			}
+		}
 		bs := ex.strBytes(a)
 		lo, hi := get(i.Low, 0), get(i.High, len(bs))
 		if lo < 0 || hi < lo || hi > len(bs) {
